@@ -808,13 +808,13 @@ fn layout2(ids: &mut Ids, sa: BS, sb: BS, arr: Arr, root: bool) -> Vec<Node> {
     body
 }
 
-/// the layouts of one level over two block names; `full` selects the larger menu
-fn level_menu(full: bool) -> Vec<(BS, BS, Arr)> {
+/// the layouts of one level over two block names; `n` arrangements (2, 3 or 6)
+fn level_menu_n(n: usize) -> Vec<(BS, BS, Arr)> {
     let states = [BS::Absent, BS::Plain, BS::WithSuper];
-    let arrs: &[Arr] = if full {
-        &[Arr::Sib, Arr::BinA, Arr::BinFilterInA, Arr::AinB, Arr::BinFilterTop, Arr::BinSetInA]
-    } else {
-        &[Arr::Sib, Arr::BinFilterInA]
+    let arrs: &[Arr] = match n {
+        6 => &[Arr::Sib, Arr::BinA, Arr::BinFilterInA, Arr::AinB, Arr::BinFilterTop, Arr::BinSetInA],
+        3 => &[Arr::Sib, Arr::BinA, Arr::BinFilterInA],
+        _ => &[Arr::Sib, Arr::BinFilterInA],
     };
     let mut v = Vec::new();
     for &sa in &states {
@@ -1079,37 +1079,51 @@ fn main() {
     }
 
     // exhaustive: chains of length <= 3 over two block names
-    //   quick: the 2-arrangement menu (13 layouts per level), every chain
-    //   thorough: the 6-arrangement menu (33 layouts per level), every chain of length <= 3
-    let menu = level_menu(thorough);
+    //   quick:    the 2-arrangement menu (13 layouts per level), every chain of length 1..3
+    //   thorough: the 3-arrangement menu (17 layouts per level), every chain of length 1..3,
+    //             plus the 6-arrangement menu (33 layouts) exhaustively for length 1..2 and
+    //             sampled for length 3 (35 937 chains)
+    let menu = level_menu_n(if thorough { 3 } else { 2 });
     let mut exhaustive = 0usize;
-    for len in 1..=3usize {
-        let mut idx = vec![0usize; len];
-        loop {
-            let ls: Vec<(BS, BS, Arr)> = idx.iter().map(|&i| menu[i]).collect();
-            let set = chain_from_layouts(&ls);
-            push_set(&mut sink, &mut meta, &mut rng, &mut st, &set, if thorough { 3 } else { 6 }, "exhaustive");
-            exhaustive += 1;
-            let mut k = 0;
+    let sweep = |menu: &[(BS, BS, Arr)], max_len: usize, sink: &mut Sink, meta: &mut Meta, rng: &mut Rng, st: &mut Stats, exhaustive: &mut usize| {
+        for len in 1..=max_len {
+            let mut idx = vec![0usize; len];
             loop {
+                let ls: Vec<(BS, BS, Arr)> = idx.iter().map(|&i| menu[i]).collect();
+                let set = chain_from_layouts(&ls);
+                push_set(sink, meta, rng, st, &set, if thorough { 3 } else { 6 }, "exhaustive");
+                *exhaustive += 1;
+                let mut k = 0;
+                loop {
+                    if k == len {
+                        break;
+                    }
+                    idx[k] += 1;
+                    if idx[k] < menu.len() {
+                        break;
+                    }
+                    idx[k] = 0;
+                    k += 1;
+                }
                 if k == len {
                     break;
                 }
-                idx[k] += 1;
-                if idx[k] < menu.len() {
-                    break;
-                }
-                idx[k] = 0;
-                k += 1;
             }
-            if k == len {
-                break;
-            }
+        }
+    };
+    sweep(&menu, 3, &mut sink, &mut meta, &mut rng, &mut st, &mut exhaustive);
+    if thorough {
+        let full = level_menu_n(6);
+        sweep(&full, 2, &mut sink, &mut meta, &mut rng, &mut st, &mut exhaustive);
+        for _ in 0..6_000 {
+            let ls: Vec<(BS, BS, Arr)> = (0..3).map(|_| *rng.pick(&full)).collect();
+            let set = chain_from_layouts(&ls);
+            push_set(&mut sink, &mut meta, &mut rng, &mut st, &set, 3, "chain3-full-menu");
         }
     }
     // chains of length 4 over the full menu: sampled
-    let n4 = if thorough { 4_000 } else { 200 };
-    let full = level_menu(true);
+    let n4 = if thorough { 2_500 } else { 200 };
+    let full = level_menu_n(6);
     for _ in 0..n4 {
         let ls: Vec<(BS, BS, Arr)> = (0..4).map(|_| *rng.pick(&full)).collect();
         let set = chain_from_layouts(&ls);
@@ -1117,7 +1131,7 @@ fn main() {
     }
 
     // random sets: chains and forests up to 6 templates x 5 block names
-    let n_rand = if thorough { 12_000 } else { 500 };
+    let n_rand = if thorough { 6_000 } else { 500 };
     for i in 0..n_rand {
         let (mt, mn) = if i % 3 == 0 { (4, 3) } else { (6, 5) };
         let set = rand_set(&mut rng, mt, mn, i % 2 == 0);
@@ -1127,7 +1141,7 @@ fn main() {
     meta.extra.insert("exhaustive_sets".into(), json!(exhaustive));
     meta.extra.insert("exhaustive_space".into(), json!(format!(
         "every chain of length 1..3 over block names {{b0,b1}} where each level picks one of {} layouts (each block absent / plain / with super(); arrangements {})",
-        menu.len(), if thorough { "sibling, b1 in b0, b1 in filter in b0, b0 in b1, b1 in top-level filter, b1 in set-capture in b0" } else { "sibling, b1 in filter in b0" })));
+        menu.len(), if thorough { "sibling, b1 in b0, b1 in filter in b0; plus every chain of length 1..2 over the 33-layout menu that adds b0 in b1, b1 in top-level filter, b1 in set-capture in b0" } else { "sibling, b1 in filter in b0" })));
     meta.extra.insert("sets".into(), json!(st.sets));
     meta.extra.insert("accepted".into(), json!(st.accepted));
     meta.extra.insert("rejected".into(), json!(st.rejected));
